@@ -120,13 +120,25 @@ class VCSStrategyGit(VCSStrategy):
         all_files = os.fsdecode(result.stdout).split("\0")
         return {Path(file_) for file_ in all_files}
 
+    def _find_toplevel(self) -> Optional[Path]:
+        """The top of the work tree that the root is in."""
+        command = [str(self.EXE), "rev-parse", "--show-toplevel"]
+        result = execute_command(command, _LOGGER, cwd=self.root)
+        if result.returncode:
+            return None
+        return Path(os.fsdecode(result.stdout)[:-1])
+
     def _find_submodules(self) -> set[Path]:
+        # '.gitmodules' lives at the top of the work tree, and the paths in it
+        # are relative to that directory. The root of the project may be a
+        # directory below the top.
+        toplevel = self._find_toplevel()
         command = [
             str(self.EXE),
             "config",
             "-z",
             "--file",
-            ".gitmodules",
+            str(toplevel / ".gitmodules") if toplevel else ".gitmodules",
             "--get-regexp",
             r"\.path$",
         ]
@@ -139,10 +151,18 @@ class VCSStrategyGit(VCSStrategy):
         # Everything after the first newline is the path; it may itself
         # contain line breaks. A key without a value ('path' on a line of its
         # own) has no newline at all and names no submodule.
-        return {
+        submodules = {
             Path(entry.split("\n", maxsplit=1)[1])
             for entry in submodule_entries
             if "\n" in entry
+        }
+        if toplevel is None:
+            return submodules
+        # Like everything else this object keeps: relative to the root.
+        root = self.root.resolve()
+        return {
+            Path(os.path.relpath(toplevel / submodule, root))
+            for submodule in submodules
         }
 
     def is_ignored(self, path: StrPath) -> bool:
